@@ -259,14 +259,21 @@ TEMPLATE_SRC = [
 TEMPLATE_PAIRS = [(q1, q2) for q1 in TEMPLATE_Q1 for q2 in FAST_QUERIES] + [
     (q1, q2) for q1 in EXPORTS for q2 in EXPORTS
 ]
-N_TEMPLATES = len(TEMPLATE_PAIRS) * len(TEMPLATE_MUT) * len(TEMPLATE_SRC)
+N_MEMO_PAIRS = len(TEMPLATE_Q1) * len(FAST_QUERIES)
+# export pairs only on the CIF-loaded sources and the file (stored CIF data, files overwritten)
+TEMPLATE_COMBOS = [
+    (p, m, s)
+    for p in range(len(TEMPLATE_PAIRS))
+    for m in range(len(TEMPLATE_MUT))
+    for s in range(len(TEMPLATE_SRC))
+    if p < N_MEMO_PAIRS or TEMPLATE_SRC[s][1] == "cif" or TEMPLATE_SRC[s][0] == "file"
+]
+N_TEMPLATES = len(TEMPLATE_COMBOS)
 
 
 def template_of(index):
-    i = index % N_TEMPLATES
-    i, s = divmod(i, len(TEMPLATE_SRC))
-    i, m = divmod(i, len(TEMPLATE_MUT))
-    q1, q2 = TEMPLATE_PAIRS[i % len(TEMPLATE_PAIRS)]
+    p, m, s = TEMPLATE_COMBOS[index % N_TEMPLATES]
+    q1, q2 = TEMPLATE_PAIRS[p]
     return q1, TEMPLATE_MUT[m], q2, TEMPLATE_SRC[s]
 
 
@@ -380,7 +387,7 @@ def big_run(verif_seed, index, stratum="big"):
 
 
 # ------------------------------------------- three-object fork patterns
-FORK3_FIRST = [None, "uc_atoms", "uc_mols", "sym_mols"]
+FORK3_FIRST = [None, "uc_mols", "sym_mols"]
 FORK3_KINDS = [("deepcopy", "deepcopy"), ("deepcopy", "pickle"), ("pickle", "deepcopy"), ("deepcopy", "reload"), ("stranger", "deepcopy"), ("other", "deepcopy")]
 FORK3_TOPOLOGY = ["star", "chain"]  # both copies of h0 / copy of a copy
 FORK3_ORDER = [(0, 1), (1, 0), (0, 2), (2, 0), (1, 2), (2, 1)]  # which two handles are switched, in order
@@ -505,7 +512,7 @@ def slowpair_run(verif_seed, index, stratum="slowpairs"):
                 steps.append({"h": 0, "op": "toR" if choice == "H" else "toH"})
             last = 1 if first == "deepcopy" else 0
             steps += [{"h": last, "op": q}, {"h": last, "op": q}]
-            steps += audit_steps(len([0]) + (1 if first == "deepcopy" else 0), rng.sample(FAST_QUERIES, 3) + [rng.choice(SLOW)])
+            steps += audit_steps(len([0]) + (1 if first == "deepcopy" else 0), rng.sample(FAST_QUERIES, 3))
             state["rest"] = iter(steps)
         return next(state["rest"], None)
 
